@@ -382,12 +382,15 @@ func round(ctx *context, args []Datum) (retNum Datum) {
 	// XPath 1.0 4.4: the integer closest to the argument, ties towards
 	// positive infinity.  NaN, the infinities and both zeros are returned
 	// unchanged, and [-0.5, 0) gives negative zero (Ceil keeps the sign).
+	return NewNumDatum(xpathRound(num0))
+}
+
+func xpathRound(num0 float64) float64 {
 	rounded := math.Floor(num0)
 	if num0-rounded >= 0.5 {
 		rounded = math.Ceil(num0)
 	}
-
-	return NewNumDatum(rounded)
+	return rounded
 }
 
 func position(ctx *context, args []Datum) (retNum Datum) {
@@ -431,32 +434,22 @@ func substring(ctx *context, args []Datum) (retLit Datum) {
 	num1 := args[1].Number("substring()")
 	num2 := args[2].Number("substring()")
 
-	substrLen := len(lit0)
-	if substrLen == 0 {
-		return NewLiteralDatum("")
+	// XPath 1.0 4.2: the characters whose position p (the first one has
+	// position 1) satisfies round(start) <= p < round(start) + round(length),
+	// in IEEE arithmetic: a NaN bound selects nothing, an infinite length
+	// selects everything from the start position on.  Positions count
+	// characters, not bytes.
+	first := xpathRound(num1)
+	limit := first + xpathRound(num2)
+	var b strings.Builder
+	pos := 0.0
+	for _, r := range lit0 {
+		pos++
+		if pos >= first && pos < limit {
+			b.WriteRune(r)
+		}
 	}
-
-	// NB: XPATH uses 1 as first index in string, not zero, so we have to
-	//     subtract one here.  We also need to ensure both start and end Pos
-	//     are >= 0.
-	startPos := int(math.Trunc(num1+0.5)) - 1
-	endPos := int(math.Trunc(num2+0.5)) + startPos
-	if startPos < 0 {
-		// Only do this AFTER calculating endPos as the spec says we calculate
-		// length based on the rounded difference of the two params.
-		startPos = 0
-	}
-	if startPos >= substrLen {
-		return NewLiteralDatum("")
-	}
-	if endPos < 0 {
-		endPos = 0
-	}
-	if endPos > substrLen {
-		endPos = substrLen
-	}
-	substr := lit0[startPos:endPos]
-	return NewLiteralDatum(substr)
+	return NewLiteralDatum(b.String())
 }
 
 func substringAfter(ctx *context, args []Datum) (retLit Datum) {
